@@ -645,7 +645,7 @@ Fixpoint jcall_params (first : bool) (ps : list node) (acc : list chunk) : J (li
       | NParamContent _ key content =>
           st <~ jget ;;
           let old := j_buf st in
-          g <~ jsc_makevar t_param ;;
+          g <~ jsc_genname t_param ;;
           jmod (set_buf g) ;;;
           jsln [CText t_var; CName g; CText t_eq_empty] ;;;
           w content ;;;
